@@ -9,10 +9,14 @@ pub mod c04;
 pub mod c05;
 pub mod c07;
 pub mod c08;
+pub mod c11;
 pub mod c12;
+pub mod c13;
+pub mod c14;
 pub mod c15;
 pub mod c16;
 pub mod c17;
+pub mod c19;
 pub mod c20;
 
 pub struct Prepared {
@@ -33,6 +37,24 @@ pub fn cfg_for(gen_name: &str) -> GenCfg {
             let mut c = GenCfg::full();
             c.names = 2;
             c.big_offsets = false;
+            c
+        }
+        "c14" => {
+            let mut c = GenCfg::full();
+            c.big_offsets = false;
+            c.max_funcs = 5;
+            c.max_ops = 15;
+            c
+        }
+        "manyfuncs" => {
+            // function counts on both sides of the 127/128 LEB boundary
+            let mut c = GenCfg::full();
+            c.big_offsets = false;
+            c.max_funcs = 140;
+            c.min_funcs = 118;
+            c.max_ops = 4;
+            c.customs = 0;
+            c.names = 0;
             c
         }
         "customs" => {
@@ -77,7 +99,7 @@ pub struct PropDef {
 }
 
 pub fn all() -> Vec<PropDef> {
-    vec![c02::def(), c03::def(), c04::def(), c05::def(), c07::def(), c08::def(), c12::def(), c15::def(), c16::def(), c17::def(), c20::def()]
+    vec![c02::def(), c03::def(), c04::def(), c05::def(), c07::def(), c08::def(), c11::def(), c12::def(), c13::def(), c14::def(), c15::def(), c16::def(), c17::def(), c19::def(), c20::def()]
 }
 
 pub fn get(id: &str) -> Option<PropDef> {
